@@ -34,7 +34,7 @@ func (e *Env) RLocality() {
 				"decoration/spacing operand is "+ev.Src+": it must be a field of the node being restored (n.Decs.* or an inline child's Decs), else comments do not travel with the node when it is moved")
 		}
 	}
-	e.Run.Floor("R-LOCAL", "render operands", n, 300)
+	e.Run.Floor("R-LOCAL", "render operands", n, 250)
 	// field-write inventory of FileRestorer in the render path
 	pkg := e.Prog.Pkg(load.PkgDecorator)
 	info := pkg.TypesInfo
@@ -193,29 +193,29 @@ func (e *Env) RMapsAllocated() {
 // is classified; a new one is reported as undecided.
 func (e *Env) RPanicInventory() {
 	classified := map[string]string{
-		"(*Decorator).DecorateNode":             "API misuse precondition (Path without Resolver / Resolver without Path)",
-		"(*FileRestorer).RestoreFile":           "API misuse precondition; SetLines failure is positional (line table is proven strictly increasing by R-CURSOR)",
-		"(*fileDecorator).resolvePath":          "needs a Resolver (callers test it); field-type literal proven by R-ASSERT/R-ROLE",
-		"(*FileRestorer).restoreIdent":          "API misuse precondition (path-carrying identifier without resolver; path on a declaring position)",
-		"(*fileDecorator).decorateObject":       "default arm of a type switch over documented Object.Decl/Data contents",
-		"(*FileRestorer).restoreObject":         "default arm of a type switch over documented Object.Decl/Data contents",
-		"(*fileDecorator).link":                 "positional: 'no decoration found' (every comment lies between two decoration points of the file node; not decided statically)",
-		"(*FileRestorer).restoreNode":           "duplicate node (documented contract, C06) and default arm proven unreachable by R-COVER",
-		"mergeDecorations":                      "default arm over the three slot types it is called with",
-		"mustUnquote":                           "import path literal of a parsed ImportSpec is always a valid Go string",
-		"Clone":                                 "default arm proven unreachable by R-COVER",
-		"Walk":                                  "default arm proven unreachable by R-COVER",
-		"(*application).apply":                  "default arm proven unreachable by R-COVER; abort sentinel recovered in Apply",
-		"Apply":                                 "re-panics foreign panics only",
-		"(*Cursor).Replace":                     "API misuse (non-file replacement of a file)",
-		"(*Cursor).Delete":                      "API misuse (node not in a slice)",
-		"(*Cursor).InsertAfter":                 "API misuse (node not in a slice)",
-		"(*Cursor).InsertBefore":                "API misuse (node not in a slice)",
-		"NewPackage":                            "fork of go/ast (internal error arm)",
-		"(*printer).printf":                     "debug printer (dst.Print), same as go/ast",
-		"(*printer).print":                      "debug printer (dst.Print), same as go/ast",
-		"Fprint":                                "debug printer (dst.Print), same as go/ast: recovers its own localError",
-		"fprint":                                "debug printer (dst.Print), same as go/ast: recovers its own localError",
+		"(*Decorator).DecorateNode":       "API misuse precondition (Path without Resolver / Resolver without Path)",
+		"(*FileRestorer).RestoreFile":     "API misuse precondition; SetLines failure is positional (line table is proven strictly increasing by R-CURSOR)",
+		"(*fileDecorator).resolvePath":    "needs a Resolver (callers test it); field-type literal proven by R-ASSERT/R-ROLE",
+		"(*FileRestorer).restoreIdent":    "API misuse precondition (path-carrying identifier without resolver; path on a declaring position)",
+		"(*fileDecorator).decorateObject": "default arm of a type switch over documented Object.Decl/Data contents",
+		"(*FileRestorer).restoreObject":   "default arm of a type switch over documented Object.Decl/Data contents",
+		"(*fileDecorator).link":           "positional: 'no decoration found' (every comment lies between two decoration points of the file node; not decided statically)",
+		"(*FileRestorer).restoreNode":     "duplicate node (documented contract, C06) and default arm proven unreachable by R-COVER",
+		"mergeDecorations":                "default arm over the three slot types it is called with",
+		"mustUnquote":                     "import path literal of a parsed ImportSpec is always a valid Go string",
+		"Clone":                           "default arm proven unreachable by R-COVER",
+		"Walk":                            "default arm proven unreachable by R-COVER",
+		"(*application).apply":            "default arm proven unreachable by R-COVER; abort sentinel recovered in Apply",
+		"Apply":                           "re-panics foreign panics only",
+		"(*Cursor).Replace":               "API misuse (non-file replacement of a file)",
+		"(*Cursor).Delete":                "API misuse (node not in a slice)",
+		"(*Cursor).InsertAfter":           "API misuse (node not in a slice)",
+		"(*Cursor).InsertBefore":          "API misuse (node not in a slice)",
+		"NewPackage":                      "fork of go/ast (internal error arm)",
+		"(*printer).printf":               "debug printer (dst.Print), same as go/ast",
+		"(*printer).print":                "debug printer (dst.Print), same as go/ast",
+		"Fprint":                          "debug printer (dst.Print), same as go/ast: recovers its own localError",
+		"fprint":                          "debug printer (dst.Print), same as go/ast: recovers its own localError",
 	}
 	n := 0
 	for _, path := range []string{load.PkgDst, load.PkgDecorator, load.PkgDstutil, load.PkgGoast, load.PkgGotypes, load.PkgGuess, load.PkgSimple} {
@@ -248,7 +248,7 @@ func (e *Env) RPanicInventory() {
 		}
 	}
 	e.Run.Analysed("explicit panic sites", n)
-	e.Run.Floor("R-NOPANIC", "explicit panic sites", n, 25)
+	e.Run.Floor("R-NOPANIC", "explicit panic sites", n, 15)
 }
 
 func init() {
@@ -273,6 +273,6 @@ func init() {
 		e.RCover("restore", e.dstNodeNames(), true)
 		e.RMapsAllocated()
 		e.RPanicInventory()
-		e.RErr(e.pkgs(load.PkgDecorator), 100)
+		e.RErr(e.pkgs(load.PkgDecorator), 80)
 	})
 }
